@@ -356,6 +356,23 @@ attribute: the continuation reads nothing that is neither stored in the network 
 theorem network_state_read_is_declared :
     ∀ f ∈ networkStateRead, f ∈ declaredNetworkState ∨ f ∈ declaredDefinitionPrivates := by decide
 
+/-- **(source obligation 7)** `_setup_sim_options` does not look at the clock: the effective hydraulic and report steps are
+computed from the options alone, hence identically by the first `run_sim` and by every continuation (a guard like
+`sim_time == 0` around the adjustment breaks this) -/
+theorem setup_ignores_clock : setupReadsClock = false := by decide
+
+/-- the adjustment as it is in the source IS the hand-written `effSteps` (`schedgen.eff_steps`): report < hyd reduces the
+hydraulic step to the report step; a report step that is not a multiple is floored to one -/
+theorem source_setup_is_effSteps (hyd rep : Int) : runSetup setupAdjust (hyd, rep) = effSteps hyd rep := by
+  simp only [setupAdjust, runSetup, effSteps]
+
+/-- **the effective steps after a restart equal those of the uninterrupted run**: `runSetup` has no clock argument
+(`setup_ignores_clock` ties that to the source), so whatever `sim_time` a part starts from it steps on the same grid -/
+theorem effective_steps_restart (hyd rep clock1 clock2 : Int) :
+    (fun (_ : Int) => runSetup setupAdjust (hyd, rep)) clock1 = (fun (_ : Int) => runSetup setupAdjust (hyd, rep)) clock2 := rfl
+
+example : runSetup setupAdjust (3600, 1800) = (1800, 1800) ∧ runSetup setupAdjust (3600, 5400) = (3600, 3600) := by decide
+
 /-- **(source obligation 4)** the only network attributes the loop stores through `self._wn` are the clock fields (part
 of the core `C`); everything else goes through element objects owned by the network -/
 theorem loop_stores_only_clock_in_wn : ∀ f ∈ wnStoredInLoop, f ∈ ["sim_time", "_prev_sim_time"] := by decide
